@@ -14,9 +14,14 @@ func loadTyped(rels []string) (map[string]*packages.Package, error) {
 	if loadedPkgs != nil {
 		return loadedPkgs, nil
 	}
+	// one load for every generator: the union of all anchored package lists
+	seen := map[string]bool{}
 	var patterns []string
-	for _, r := range rels {
-		patterns = append(patterns, "./"+r)
+	for _, r := range append(append(append([]string{}, rels...), lockPkgs...), orderPkgs...) {
+		if !seen[r] {
+			seen[r] = true
+			patterns = append(patterns, "./"+r)
+		}
 	}
 	cfg := &packages.Config{
 		Mode: packages.NeedName | packages.NeedFiles | packages.NeedSyntax | packages.NeedTypes | packages.NeedTypesInfo | packages.NeedImports | packages.NeedDeps,
